@@ -40,6 +40,41 @@ def refine(state, cond, truth, blk=None):
                 if state is None:
                     return None
             return state
+        if sc is not None and sc.get("k") == "call" and _ACTIVE[0] is not None and X.callee_name(sc):
+            # switch (classify(a, b)): the helper's paths that return this case's value (or, for the default, none of the
+            # excluded values) say what is known about the arguments on this edge - the facts all of them agree on
+            g_ = _ACTIVE[0].prog.fn(X.callee_name(sc)) if hasattr(_ACTIVE[0], "prog") else None
+            vp = None
+            if g_ is not None and g_.body is not None:
+                from . import inout
+                try:
+                    vp = inout.verdict_paths(g_, sc["ch"][1:])
+                except Exception:
+                    vp = None
+            if vp:
+                if truth[0] == "case" and truth[1] is not None:
+                    sel = [t_ for v_, t_ in vp if v_ == truth[1]]
+                elif truth[0] == "default":
+                    ex_ = set(truth[1] if len(truth) > 1 else ())
+                    sel = [t_ for v_, t_ in vp if v_ not in ex_]
+                else:
+                    sel = None
+                if sel is not None:
+                    outs = []
+                    for tests_ in sel:
+                        st_ = state
+                        for c_, t_ in tests_:
+                            st_ = refine(st_, c_, t_, blk)
+                            if st_ is None:
+                                break
+                        if st_ is not None:
+                            outs.append(st_)
+                    if not outs:
+                        return None
+                    res_ = outs[0]
+                    for o_ in outs[1:]:
+                        res_ = res_ & o_
+                    return res_
         p = X.apath(cond)
         if p is None:
             return state
@@ -422,6 +457,27 @@ def param_tests(fn):
     ppaths = {"d%d" % p["d"]: i for i, p in enumerate(fn.params)}
     for b in cfg.blocks:
         for s, cond, truth in cfg.edges(b):
+            if cond is not None and isinstance(truth, tuple):
+                # switch (mask) / switch (classify(a, b)): the conditions the case values stand for are tests of the parameters
+                sc = X.strip(cond)
+                conds_ = []
+                if sc is not None and sc.get("k") == "ref" and sc.get("maskdef") is not None:
+                    conds_ = [c_ for c_, _k in sc["maskdef"]]
+                elif sc is not None and sc.get("k") == "call" and _ACTIVE[0] is not None and X.callee_name(sc):
+                    g_ = _ACTIVE[0].prog.fn(X.callee_name(sc))
+                    if g_ is not None and g_.body is not None:
+                        from . import inout
+                        try:
+                            vp = inout.verdict_paths(g_, sc["ch"][1:])
+                        except Exception:
+                            vp = None
+                        for _v, tests_ in (vp or ()):
+                            conds_ += [c_ for c_, _t in tests_]
+                for c_ in conds_:
+                    for f in X.implied(c_, True) | X.implied(c_, False):
+                        if f[0] in ("nn", "null") and f[1] in ppaths:
+                            res.add(ppaths[f[1]])
+                continue
             if cond is None or isinstance(truth, tuple):
                 continue
             for f in X.implied(cond, True) | X.implied(cond, False) | guard_helper_facts(cond, True) | guard_helper_facts(cond, False):
